@@ -215,6 +215,36 @@ def flatten(e):
     return rebuild(e, flatten)
 
 
+ASSOC_NARY = ("Sum", "Product", "BitwiseOr", "BitwiseXor", "BitwiseAnd",
+              "LogicalOr", "LogicalAnd")
+
+
+def flatten_assoc(e):
+    """Like flatten(), for every associative n-ary node type (same-type
+    children are spliced into their parent; operand order is kept)."""
+    if isinstance(e, p.Expression) and type(e).__name__ in ASSOC_NARY \
+            and type(e).__module__ == p.__name__:
+        out = []
+        for c in e.children:
+            fc = flatten_assoc(c)
+            if type(fc) is type(e):
+                out.extend(fc.children)
+            else:
+                out.append(fc)
+        return type(e)(tuple(out))
+    return rebuild(e, flatten_assoc)
+
+
+def pythonize(e):
+    """numpy scalar constants -> Python numbers (exact arithmetic, Python's
+    error semantics) for value comparisons."""
+    def f(n):
+        if isinstance(n, np.generic):
+            return (n.item(),)
+        return None
+    return transform(e, f)
+
+
 def ac_key(e, strict=False):
     """Key modulo associativity/commutativity of Sum and Product (flatten,
     sort operands; single-operand Sum/Product collapse to the operand)."""
@@ -260,3 +290,29 @@ def variables(e):
 
 def node_types(e):
     return {type(n).__name__ for _, n in occurrences(e)}
+
+
+def first_diff(a, b):
+    """Descend two trees in parallel; return (parent type, child label, type of
+    the differing child in *a*, in *b*) at the first difference, or None."""
+    def tn(x):
+        return type(x).__name__
+
+    def rec(x, y, parent, label):
+        if tn(x) != tn(y) and not (is_leaf_value(x) and is_leaf_value(y)):
+            return (parent, label, tn(x), tn(y))
+        if is_leaf_value(x):
+            if key(x, strict=False) != key(y, strict=False):
+                return (parent, label, tn(x), tn(y))
+            return None
+        cx, cy = children(x), children(y)
+        if len(cx) != len(cy):
+            return (parent, label, tn(x) + f"/{len(cx)}", tn(y) + f"/{len(cy)}")
+        for (lx, vx), (_, vy) in zip(cx, cy):
+            d = rec(vx, vy, tn(x), lx.split("[")[0])
+            if d is not None:
+                return d
+        if key(x, strict=False) != key(y, strict=False):
+            return (parent, label, tn(x), tn(y))  # non-expression field differs
+        return None
+    return rec(a, b, "<root>", "")
